@@ -258,7 +258,8 @@ func TypesWith(c explore.Chooser, opt TypesOpt) *prog.Program {
 		s.Feats = append(s.Feats, "slot.type="+slot.label)
 	}
 	slotTag := s.Pick("slot.tag", slotTags...)
-	slotName := s.Pick("slot.name", "Slot", "slot", "S")
+	slotName := s.Pick("slot.name", "Slot", "slot", "S", "absent")
+	slotAbsent := slotName == "absent"
 	hosts := []string{"struct", "union-member", "sub-struct", "nested-struct"}
 	if slot.local || strings.Contains(slot.typ, "subpkg.Info") {
 		hosts = []string{"struct", "union-member", "nested-struct"}
@@ -276,7 +277,7 @@ func TypesWith(c explore.Chooser, opt TypesOpt) *prog.Program {
 	sub.WriteString("type Kind int\n\nconst (\n\tPlain Kind = iota // plain\n\tFancy             // fancy\n)\n\n")
 	sub.WriteString("type Ident int64\n\ntype Names []string\n\n")
 	subSlot := ""
-	if host == "sub-struct" {
+	if host == "sub-struct" && !slotAbsent {
 		subSlot = fmt.Sprintf("\t%s %s %s\n", slotName, strings.ReplaceAll(slot.typ, "subpkg.", ""), slotTag)
 	}
 	fmt.Fprintf(&sub, "type Info struct {\n\tLabel string\n\tKind  Kind\n%s}\n\n", subSlot)
@@ -329,7 +330,7 @@ func TypesWith(c explore.Chooser, opt TypesOpt) *prog.Program {
 	}
 	add(shapeDecl)
 	circleSlot := ""
-	if host == "union-member" {
+	if host == "union-member" && !slotAbsent {
 		circleSlot = fmt.Sprintf("\t%s %s %s\n", slotName, slot.typ, slotTag)
 	}
 	add(fmt.Sprintf("type Circle struct {\n\tRadius int\n%s}", circleSlot))
@@ -423,11 +424,15 @@ func TypesWith(c explore.Chooser, opt TypesOpt) *prog.Program {
 	b.WriteString(slot.declB)
 	b.WriteString("\n")
 	itemSlot := ""
-	if host == "struct" {
+	if host == "struct" && !slotAbsent {
 		itemSlot = fmt.Sprintf("\t%s %s %s\n", slotName, slot.typ, slotTag)
 	}
 	if host == "nested-struct" {
-		add(fmt.Sprintf("type Inner struct {\n\tDepth int\n\t%s %s %s\n}", slotName, slot.typ, slotTag))
+		if slotAbsent {
+			add("type Inner struct {\n\tDepth int\n}")
+		} else {
+			add(fmt.Sprintf("type Inner struct {\n\tDepth int\n\t%s %s %s\n}", slotName, slot.typ, slotTag))
+		}
 		itemSlot = "\tIn    Inner\n\tIns   []Inner\n"
 	}
 	item := "type Item struct {\n" + embField +
